@@ -1779,9 +1779,12 @@ class Compiler:
         self._macros.append(node.extend)
 
         callbacks = []
+        cleanup = []
+        backups = set()
         for slot in node.slots:
             key = "__slot_%s" % mangle(slot.name)
             fun = "__fill_%s" % mangle(slot.name)
+            backup = "__previous_slot_%s" % mangle(slot.name)
 
             self._current_slot.append(slot.name)
 
@@ -1849,6 +1852,17 @@ class Compiler:
                     orelse=append,
                 )]
 
+            # The fillers are offered to this macro only: a filler that
+            # the macro did not use must not fill a slot of the same
+            # name in a macro used later.
+            if backup not in backups:
+                backups.add(backup)
+                callbacks.extend(template(
+                    "BACKUP = get(KEY, __marker)", BACKUP=backup, KEY=key))
+                cleanup.extend(template(
+                    "if BACKUP is __marker: del econtext[KEY]\n"
+                    "else:                 econtext[KEY] = BACKUP",
+                    BACKUP=backup, KEY=key))
             callbacks.extend(assignment)
 
         assert self._macros.pop() == node.extend
@@ -1863,7 +1877,8 @@ class Compiler:
             self._call_and_merge_globals(template(
                 "__m(__stream, econtext.copy(), "
                 "rcontext, __i18n_domain, __i18n_context, target_language)"
-            ))
+            )) +
+            cleanup
         )
 
     def visit_Repeat(self, node):
